@@ -386,7 +386,9 @@ def _norm_slots(item_slots, sigslots, sig):
         if form == 'braced':
             content = normalise(content, sig)
         elif form == 'bracket':
-            content = normalise(content, sig, in_bracket=True)
+            # in_bracket carries the opening delimiter of this slot: nested bracket groups are
+            # written with the same pair
+            content = normalise(content, sig, in_bracket=(_slot_trigger(sg) or (sg['x'][0] if sg.get('k') == 'r' else '[')))
         elif form == 'token':
             content = list(content)
             if content[0] == 'macro' and is_control_word(content[1]):
@@ -449,7 +451,7 @@ def normalise(items, sig, in_bracket=False, _top=True):
             if not in_bracket:
                 it = ['group', normalise(it[1], sig)]
             else:
-                it[1] = normalise(it[1], sig, in_bracket=True)
+                it[1] = normalise(it[1], sig, in_bracket=in_bracket)
         elif k == 'macro':
             sigslots = sig['macros'].get(it[1], [])
             it[3] = _norm_slots(it[3], sigslots, sig)
@@ -583,6 +585,10 @@ def _fix_adjacency_core(items, sig, in_bracket):
     for it in items:
         k = it[0]
         prev = out[-1] if out else None
+        if k == 'text' and it[1] and not it[1].strip():
+            # blank-only text is whitespace: the whitespace rules below must see it as such
+            it = ['space', it[1]]
+            k = 'space'
         # merge text / space runs
         if k == 'space' and prev is not None and prev[0] == 'space':
             if '\n' in prev[1] and '\n' in it[1]:
@@ -620,13 +626,17 @@ def _fix_adjacency_core(items, sig, in_bracket):
             trig = _has_trailing_absent(prev, sig) if prev[0] == 'macro' else set()
             if trig:
                 fc = _first_char([it]) if k != 'comment' else '%'
+                if k == 'bgroup':
+                    fc = in_bracket if isinstance(in_bracket, str) else '['
                 if k == 'space':
                     fc = None   # decided when the next item arrives
                 if fc and fc in trig:
                     out.append(['group', []])
         if prev is not None and prev[0] == 'space' and len(out) >= 2 and out[-2][0] == 'macro':
             trig = _has_trailing_absent(out[-2], sig, after_space=True)
-            if trig and k not in ('par', 'comment') and _first_char([it]) in trig:
+            if trig and k not in ('par', 'comment') and \
+                    ((in_bracket if isinstance(in_bracket, str) else '[') if k == 'bgroup'
+                     else _first_char([it])) in trig:
                 # "\item [" : the space does not protect; insert {} before the space
                 out.insert(len(out) - 1, ['group', []])
         # ligature-forming pairs only as explicit specials: separate char runs that would
